@@ -15,6 +15,9 @@ CLAIMED = {
  "C03": ("deterministic simulation: seeded partition of the byte stream into reads (every 2-way split enumerated per sampled stream), differential oracle against one-read delivery through the same real code",
          "seeded exploration of (stream, partition) pairs through the real XmppSocket; a clean batch is evidence, not proof",
          "SimSslSocket replaces the kernel socket; the one-read delivery through the same code is the reference"),
+ "C04": ("deterministic simulation with fault injection: seeded client configurations x hostile/odd server scripts x TLS handshake outcomes x cuts and redirects; wire eavesdropper that knows for every byte whether the link was encrypted + give-up check",
+         "seeded search over server behaviours (including unsolicited elements at any moment and a fully scripted muted server) and handshake outcomes; safety monitor on every byte the client writes; a clean batch is evidence, not proof",
+         "transport and TLS handshake outcome are simulated (no TLS records); the encrypted flag of the simulated link is the ground truth for the eavesdropper"),
  "C07": ("deterministic simulation with fault injection: seeded histories of requests (raw and 34 manager APIs), scheduler-chosen replies (any sender, any order, duplicated, never), deferred e2ee jobs, link losses and (non-)resumptions; exactly-once counters, sender attribution, bounded completion",
          "seeded search over histories and schedules with a real client; every reply and every asynchronous completion is a scheduler decision; a clean batch is evidence, not proof",
          "transport, clock, server and encryption extension are simulated; 'don't care' sender variants are not judged"),
